@@ -275,3 +275,8 @@ TEXT["C03"]["level"] = TEXT["C03"]["level"].replace(
  "(d) For every asm op line the judge also runs the regenerated programs on the same operands and alias pattern and must reproduce the real routine's limbs and flag exactly (boundary operands: top-word ties, carry chains, T = p*R-1, top bits set).")
 TEXT["C03"]["note"] = ("AArch64 and ARMv6-M sources: see DESIGN.md 8.2 for what part of them has a model.  Trusted: the machine model's instruction semantics (validated against the host CPU on every run through the judge), asm2lean (cross-checked against GNU as/objdump), Lean kernel.  "
                        "Side conditions of the assembly theorems are the C++ contract's: operands < p for the modular routines, res disjoint from p, multiply/square output disjoint from the inputs (__restrict), 2p <= 2^384.")
+TEXT["C03"]["level"] += ("  (e) AArch64 and ARMv6-M: translate/arm2lean.py regenerates instruction lists for all 8 + 8 exported routines (AArch64 decoding cross-checked two ways against llvm-mc/llvm-objdump and an independent encoder; the Thumb-1 text is parsed by GNU divided-syntax rules, encodability round-tripped), "
+                         "Impl/A64.lean and Impl/Thumb1.lean are executable machine models with AAPCS64/AAPCS call wrappers, and for every asm add/sub/dbl/mul/sqr/mred op line and every Fq fp_mul/fp_sqr line (fused routines) the judge runs BOTH ARM models on the same operands and alias pattern and demands the output tokens of the real x86/portable back end - "
+                         "so a change to an ARM source that alters a result on the boundary-directed operands is reported although the code cannot be executed here.")
+TEXT["C03"]["note"] = ("ARM models: no theorems, instruction semantics transcribed from the Arm ARM and NOT validated against hardware (none available); the Thumb-1 parse is not cross-checked by an assembler (llvm-mc rejects the divided syntax).  x86: the machine model's instruction semantics are validated against the host CPU on every run through the judge, asm2lean is cross-checked against GNU as/objdump.  "
+                       "Side conditions of the assembly theorems are the C++ contract's: operands < p for the modular routines, res disjoint from p, multiply/square output disjoint from the inputs (__restrict), 2p <= 2^384.  Observations on the ARMv6-M sources are recorded in DESIGN.md 8.3.")
